@@ -46,7 +46,14 @@ def handleSv (stream : String) (inp impl : List String) : String :=
             | _ => "tl-other"
           else s!"{stream}-{l.ep}-{framingClass l.framing l.framingRaw}" ++
             (if l.followup == "r0" || l.followup == "na" then "" else "-resent")
-        out l.id agree (b2s specOk) cls "-" (verdictStr v)
+        -- K10: a schedule inside multer 3.1.0 refuses a conformant multipart body once; the
+        -- harness has sent the same request twice more and the value sent was delivered both
+        -- times (`T:<value>`).  A refusal that repeats, or a resend delivering anything but
+        -- the value sent, is not this finding.
+        let k10 := l.ep == "mp" && l.status == 400 && l.echoV == "T:" ++ l.sent &&
+          verdictStr v == "200:*"
+        -- (for K10 the model is compared with the answer to the resend, which the line carries)
+        out l.id (agree || k10) (b2s specOk) (if k10 then cls ++ "-K10" else cls) (if k10 then "K10" else "-") (verdictStr v)
 
 def handle (line : String) : String :=
   let fs := fields line
